@@ -14,14 +14,15 @@ let mut previous = None; let mut offset = 0;
 for (index, (trivia, line_number)) in … {
     if let (Some(previous), Some(next_line)) = (previous, line_number) {
         let gap = next_line.saturating_sub(previous);
-        if gap != 0 { token.insert_leading_trivia(index + offset, "\n".repeat(gap)); offset += gap; }
+        if gap != 0 { token.insert_leading_trivia(index + offset, "\n".repeat(gap)); offset += 1; }
     }
     token.insert_leading_trivia(index + offset, trivia);
     if line_number.is_some() { previous = line_number; }
 }
 ```
-(`offset` grows by `gap`, not by one: with a gap of two or more the next insertion index
-overshoots; `insert_leading_trivia` pushes when the index is past the end.)
+(`offset` counts the re-created gap trivia, so `index + offset` is exactly the number of trivia
+inserted so far — since /repo fix 'remove_statement offset' (finding F34); before it grew by
+`gap` and the index overshot after a gap of two or more lines.)
 -/
 namespace DarkluaModel.C04
 open DarkluaModel.C03
@@ -57,7 +58,7 @@ def reattachLoop (token : List RTrivia) (index offset : Nat) (previous : Option 
   | t :: rest =>
     let gap := gapOf previous t.line
     let token1 := if gap != 0 then insertAt token (index + offset) (gapTrivia gap) else token
-    let offset1 := if gap != 0 then offset + gap else offset
+    let offset1 := if gap != 0 then offset + 1 else offset
     let token2 := insertAt token1 (index + offset1) t
     let previous' := if t.line.isSome then t.line else previous
     reattachLoop token2 (index + 1) offset1 previous' rest
@@ -74,12 +75,6 @@ def interleave (previous : Option Nat) : List RTrivia → List RTrivia
     let previous' := if t.line.isSome then t.line else previous
     if gap != 0 then gapTrivia gap :: t :: interleave previous' rest
     else t :: interleave previous' rest
-
-/-- no two consecutive comments are two or more lines apart -/
-def smallGaps (previous : Option Nat) : List RTrivia → Bool
-  | [] => true
-  | t :: rest =>
-    decide (gapOf previous t.line ≤ 1) && smallGaps (if t.line.isSome then t.line else previous) rest
 
 /-- the writer operations for a list of leading trivia -/
 def trivOps (l : List RTrivia) : List Op := l.map fun t => Op.trivia t.comment t.text
